@@ -1813,29 +1813,6 @@ impl<'a, W: AsRef<[u64]>> YamlCursor<'a, W> {
                             )?;
                             write_line_comment(out, value.line_comment_raw())?;
                         } else {
-                            // #1077: a deferred value that materializes as
-                            // nothing at all writes no value token here,
-                            // but can still have an anchor/tag to write, so
-                            // it can't just skip straight to the comment.
-                            // See `write_deferred_value`'s own doc comment
-                            // for the byte-for-byte spacing rule. This
-                            // covers the explicit-key-comment-with-absent-
-                            // value shape too (`? k # c\n: &anc`, #1113) --
-                            // an earlier, narrower special case for that
-                            // shape (added by #765) wrote the key's comment
-                            // without ever consulting the value's own
-                            // anchor/tag; once #1077 taught this general
-                            // path about anchors/tags, the special case
-                            // became redundant with it (verified: deleting
-                            // it changes no test outcome) and was removed.
-                            write_deferred_value(
-                                out,
-                                &value,
-                                indent,
-                                indent_spaces,
-                                unit,
-                                sort_keys,
-                            )?;
                             // The value's own comment takes priority; fall
                             // back to the key's own comment when the value
                             // has none - covers an explicit key's trailing
@@ -1853,7 +1830,30 @@ impl<'a, W: AsRef<[u64]>> YamlCursor<'a, W> {
                             let comment = value
                                 .line_comment_raw()
                                 .or_else(|| key_cursor.line_comment_raw());
-                            write_line_comment(out, comment)?;
+                            // #1077: a deferred value that materializes as
+                            // nothing at all writes no value token here,
+                            // but can still have an anchor/tag to write, so
+                            // it can't just skip straight to the comment.
+                            // See `write_deferred_value`'s own doc comment
+                            // for the byte-for-byte spacing rule. This
+                            // covers the explicit-key-comment-with-absent-
+                            // value shape too (`? k # c\n: &anc`, #1113) --
+                            // an earlier, narrower special case for that
+                            // shape (added by #765) wrote the key's comment
+                            // without ever consulting the value's own
+                            // anchor/tag; once #1077 taught this general
+                            // path about anchors/tags, the special case
+                            // became redundant with it (verified: deleting
+                            // it changes no test outcome) and was removed.
+                            write_deferred_value_and_comment(
+                                out,
+                                &value,
+                                indent,
+                                indent_spaces,
+                                unit,
+                                sort_keys,
+                                comment,
+                            )?;
                         }
                     }
                     Ok(())
@@ -1966,15 +1966,15 @@ impl<'a, W: AsRef<[u64]>> YamlCursor<'a, W> {
                             // -- see `write_deferred_value`'s own doc
                             // comment for the byte-for-byte spacing rule.
                             out.write_char('-')?;
-                            write_deferred_value(
+                            write_deferred_value_and_comment(
                                 out,
                                 &cursor,
                                 indent,
                                 indent_spaces,
                                 unit,
                                 sort_keys,
+                                cursor.line_comment_raw(),
                             )?;
-                            write_line_comment(out, cursor.line_comment_raw())?;
                         }
                         elems = rest;
                     }
@@ -6614,6 +6614,43 @@ fn write_deferred_value<Out: core::fmt::Write, W: AsRef<[u64]>>(
     Ok(())
 }
 
+/// [`write_deferred_value`], then the trailing comment of the line it is on
+/// (#710) -- where that comment can go.
+///
+/// After a value written on one line that is the end of the value. A scalar
+/// written in block style ends its first line with the `|`/`>` header
+/// instead, and its last line is content: a comment appended there reads
+/// back as part of the scalar (`a: | # c\n  x` came out as `a: |\n  x # c`,
+/// the string `x # c`). The header line is where the source had it and the
+/// only place it stays a comment. The value is rendered aside to find that
+/// line, which costs nothing unless a block scalar carries a comment.
+fn write_deferred_value_and_comment<Out: core::fmt::Write, W: AsRef<[u64]>>(
+    out: &mut Out,
+    value: &YamlCursor<'_, W>,
+    indent: &str,
+    indent_spaces: usize,
+    unit: char,
+    sort_keys: bool,
+    comment: Option<&str>,
+) -> core::fmt::Result {
+    let is_block_scalar = comment.is_some()
+        && matches!(
+            value.value(),
+            YamlValue::String(YamlString::BlockLiteral { .. } | YamlString::BlockFolded { .. })
+        );
+    if !is_block_scalar {
+        write_deferred_value(out, value, indent, indent_spaces, unit, sort_keys)?;
+        return write_line_comment(out, comment);
+    }
+    let mut text = String::new();
+    write_deferred_value(&mut text, value, indent, indent_spaces, unit, sort_keys)?;
+    // No line break: the scalar fell back to a quoted, one-line form.
+    let first_line_end = text.find('\n').unwrap_or(text.len());
+    out.write_str(&text[..first_line_end])?;
+    write_line_comment(out, comment)?;
+    out.write_str(&text[first_line_end..])
+}
+
 /// Write `width` copies of `unit` as indentation (`unit` is `' '` for
 /// space-indented output, `'\t'` for `--tab`). JSON-only: `stream_yaml_value`
 /// and `stream_yaml_sequence` build their own indent *strings* instead (see
@@ -6929,8 +6966,15 @@ where
                 // now routes through the same `write_deferred_value` helper
                 // instead of hand-writing the anchor.
                 out.write_char('-')?;
-                write_deferred_value(out, &cursor, &own_indent, indent_spaces, unit, sort_keys)?;
-                write_line_comment(out, cursor.line_comment_raw())?;
+                write_deferred_value_and_comment(
+                    out,
+                    &cursor,
+                    &own_indent,
+                    indent_spaces,
+                    unit,
+                    sort_keys,
+                    cursor.line_comment_raw(),
+                )?;
             }
         }
         Ok(())
@@ -8835,6 +8879,24 @@ mod tests {
             .stream_yaml_document(&mut out, IndentSpec::spaces(2), false)
             .unwrap();
         assert_eq!(out, "t: \"x \"");
+    }
+
+    #[test]
+    fn test_stream_yaml_block_scalar_comment_stays_on_its_header_line() {
+        // After the last content line the comment would be content: `x # c`.
+        let yaml = b"a: | # c\n  x\nb:\n  - >- # d\n    y z\n  - \"q\" # e\n";
+        let index = YamlIndex::build(yaml).unwrap();
+        let mut out = String::new();
+        index
+            .root(yaml)
+            .stream_yaml_document(&mut out, IndentSpec::spaces(2), false)
+            .unwrap();
+        assert_eq!(out, "a: | # c\n  x\nb:\n  - >- # d\n    y z\n  - \"q\" # e");
+        let reread = YamlIndex::build(out.as_bytes()).unwrap();
+        assert_eq!(
+            reread.root(out.as_bytes()).to_json_document(),
+            r#"{"a":"x\n","b":["y z","q"]}"#
+        );
     }
 
     #[test]
